@@ -126,6 +126,35 @@ pub fn check_reproducible(b: &Built, rec: &Recorder, c: &mut Counters, p: &Param
     calls
 }
 
+/// real hash orders: the same seeded call under several hash-key environments must agree (used on
+/// the inexact-weight families, where float sums over hash-ordered collections are the risk)
+pub fn check_free_reproducible(b: &Built, rec: &Recorder, c: &mut Counters, envs: u64) -> u64 {
+    let mut calls = 0;
+    for seed in [0u64, 1] {
+        let mut outcomes: BTreeMap<Outcome, u64> = BTreeMap::new();
+        for hs in 0..envs {
+            if let Ok(o) = on_fresh_thread_scoped(700 + hs, || exec_louvain(b, true, None, None, Some(seed), None, &[]).outcome) {
+                outcomes.entry(o).or_insert(hs);
+            }
+            calls += 1;
+        }
+        c.addn("free_running_executions", envs);
+        if outcomes.len() > 1 {
+            let mut it = outcomes.iter();
+            let (o1, h1) = it.next().unwrap();
+            let (o2, h2) = it.next().unwrap();
+            let mut t = b.tags();
+            t.push("inexact_weights".into());
+            rec.record(
+                Violation::new("seeded_louvain_reproducible", "louvain_partitions", format!("{}|free:seed={seed}", b.case), format!("{}\nlouvain_partitions(weighted=true, None, None, Some({seed})) on real hash orders gives {} different results over {envs} hash-key environments, e.g.\n  environment {h1} -> {o1:?}\n  environment {h2} -> {o2:?}", b.describe(), outcomes.len()))
+                    .with_tags(t)
+                    .with_snippet(b.snippet(&format!("    // call louvain_partitions(&g, true, None, None, Some({seed})) repeatedly: the result differs between calls\n"))),
+            );
+        }
+    }
+    calls
+}
+
 fn canon_levels(r: &Result<Vec<Vec<std::collections::HashSet<i32>>>, graphrs::Error>) -> String {
     match r {
         Err(e) => format!("Err({:?})", e.kind),
@@ -381,6 +410,19 @@ pub fn run(tier: &str, rec: &Recorder) -> RunOutput {
     });
     for f in c17_families(tier) {
         for_each_graph(&f, seed, deadline, &stats, |b, c| check_reproducible(b, rec, c, &p));
+    }
+    {
+        // inexact weights on real hash orders (every graph of the family x 2 seeds x several hash-key environments)
+        let envs = if tier == "quick" { 6 } else { 12 };
+        let mut fams = vec![fam(US, 3, "wf", &ORD_ONE), fam(DS, 3, "wf", &ORD_ONE), fam(US, 4, "wf", &ORD_ONE)];
+        if tier != "quick" {
+            fams.push(fam(USL, 3, "wf", &ORD_ONE));
+            fams.push(fam(UM, 3, "wf", &ORD_ONE));
+        }
+        for mut f in fams {
+            f.min_edges = 2;
+            for_each_graph(&f, seed, deadline, &stats, |b, c| check_free_reproducible(b, rec, c, envs));
+        }
     }
     if tier != "quick" {
         // inexact weights: the order of the per-community weight sums is a choice point too
